@@ -279,3 +279,45 @@ Example c03_ex_rounds :
   exists s, rounds false ex_log 1 5 (mkSt (Some 1) NoBuf false [] (Some 1) [] []) = Some s /\
             pos s = Some 11 /\ seg s = [1; 2; 6; 7; 9; 10].
 Proof. eexists. vm_compute. repeat split. Qed.
+
+(* ---- TopicPartitionState's position-keeping methods, translated from aiokafka/consumer/subscription_state.py on
+   every run (gen/TpStateGen.v: await_reset, consumed_to, reset_to, seek, pause, resume) ------------------------- *)
+From Verif Require Import C03_TpState TpStateGen C03_tpstate.
+
+(* the invariant "AWAITING_RESET <-> no position; CONSUMING <-> a position and no pending reset strategy" holds
+   initially and is kept by every translated method *)
+Theorem c03_tpstate_invariant :
+  tps_inv tps_init /\
+  (forall t k t', TpStateGen.await_reset_py t k = Some t' -> tps_inv t') /\
+  (forall t o t', TpStateGen.seek_py t o = Some t' -> tps_inv t') /\
+  (forall t o t', TpStateGen.reset_to_py t o = Some t' -> tps_inv t') /\
+  (forall t o t', tps_inv t -> TpStateGen.consumed_to_py t o = Some t' -> tps_inv t') /\
+  (forall t t', tps_inv t -> TpStateGen.pause_py t = Some t' -> tps_inv t') /\
+  (forall t t', tps_inv t -> TpStateGen.resume_py t = Some t' -> tps_inv t').
+Proof.
+  exact (conj tps_init_inv (conj await_reset_inv (conj seek_inv (conj reset_to_inv
+        (conj consumed_to_inv (conj pause_inv resume_inv)))))).
+Qed.
+Print Assumptions c03_tpstate_invariant.
+
+(* the assertions of the source: reset_to() is legal exactly without a position, consumed_to() exactly with one *)
+Theorem c03_tpstate_assertions : forall t o, tps_inv t ->
+  (TpStateGen.reset_to_py t o <> None <-> t_position t = None) /\
+  (TpStateGen.consumed_to_py t o <> None <-> t_position t <> None).
+Proof. intros t o I. exact (conj (reset_to_defined t o I) (consumed_to_defined t o I)). Qed.
+Print Assumptions c03_tpstate_assertions.
+
+(* whenever the consumer model allows a repositioning / pause event, the translated method it stands for does not
+   hit its assertion, and the model's pos / paused components are the method's _position / _paused afterwards *)
+Theorem c03_model_moves_position_as_source : forall none L strategy s e s' t r,
+  tps_inv t -> tp_rel s t -> step none L s e = Some s' -> tp_method strategy e t = Some r ->
+  exists t', r = Some t' /\ tps_inv t' /\ tp_rel s' t'.
+Proof. exact tp_methods_simulated. Qed.
+Print Assumptions c03_model_moves_position_as_source.
+
+Theorem c03_out_of_range_reply_is_await_reset : forall L s o bs s' t strategy,
+  tp_rel s t -> opt_eqb (pos s) o = true -> has_buf (buf s) = false ->
+  step false L s (FetchResp o OFFSET_OUT_OF_RANGE bs) = Some s' ->
+  exists t', TpStateGen.await_reset_py t strategy = Some t' /\ tps_inv t' /\ tp_rel s' t'.
+Proof. exact oor_reply_is_await_reset. Qed.
+Print Assumptions c03_out_of_range_reply_is_await_reset.
